@@ -77,6 +77,11 @@ def _run(case, frames, stream, layout, total, cuts, kinds, expected_all, gaps, s
     inside = False
     for i, chunk in enumerate(wire.iter_cut(stream, cuts)):
         kind = kinds[i % len(kinds)]
+        for act in (case.get("flow") or {}).get(str(i), []):
+            # the transport's write-side flow control has nothing to do with reading: frames are still handed over as
+            # soon as their last byte has arrived
+            classes.add("flow_control")
+            (h.pause_writing if act == "pause" else h.resume_writing)()
         if kind % 6:
             classes.add("non_bytes_chunk")
         if len(chunk) == 0:
@@ -183,6 +188,10 @@ def _case(draw, tier):
         case["repeat"] = draw(st.sampled_from([9, 33, 65, 70, 130, 300]))
         tot = len(stream) * case["repeat"]
         case["cuts"] = sorted(draw(st.lists(st.integers(0, tot), max_size=4)))
+    elif r == 6:
+        case["flow"] = {str(i): draw(st.lists(st.sampled_from(["pause", "resume"]), min_size=1, max_size=2)) for i in range(len(case["cuts"]) + 1) if draw(st.integers(0, 2)) == 0}
+        if draw(st.booleans()):
+            case["gaps"] = draw(st.lists(st.sampled_from([0, 0, 0.01, 1]), min_size=1, max_size=3))
     elif r == 5:
         case["gaps"] = draw(st.lists(st.sampled_from([0, 0.01, 1, 5, 9.5, 29, 31, 45, 100, 1000]), min_size=1, max_size=4))
     return case
@@ -234,6 +243,11 @@ def enumerated(tier):
     for g in ([1], [9], [29, 2], [31], [100], [0.01, 600]):
         yield {"frames": fr, "repeat": 12, "cuts": mids, "kinds": [0, 1], "gaps": g}
     yield {"frames": [[35, {"h": "", "pad": [1, 3000]}]], "cuts": list(range(100, 3000, 100)), "kinds": [0], "gaps": [2]}
+    four = [[26, {"h": "0d01000000"}], [7, {"h": ""}], [300, {"h": "0102"}], [25, {"h": "0d02000000"}]]
+    for cuts in ([8], [8, 11], [3, 8, 14], [8, 9, 10, 11]):
+        for flow in ({"0": ["pause"], "1": ["resume"]}, {"0": ["pause"], "2": ["resume"]}, {"1": ["pause", "resume"]}, {"0": ["pause"]}, {"0": ["pause"], "1": ["resume", "pause"], "2": ["resume"]}):
+            yield {"frames": four, "cuts": cuts, "kinds": [0, 1], "flow": flow}
+            yield {"frames": four, "cuts": cuts, "kinds": [0], "flow": flow, "gaps": [0]}
     for ci, frames in enumerate(CATALOGUE):
         stream, _ = build_stream([(f[0], f[1]) for f in frames])
         n = len(stream)
